@@ -68,6 +68,9 @@ func main() {
 		os.Exit(coordinator(os.Args[2], os.Args[3]))
 	case "replay":
 		os.Exit(replay(os.Args[2]))
+	case "probe-format":
+		n, _ := strconv.ParseInt(os.Args[2], 10, 64)
+		probeFormat(n)
 	case "conform":
 		n, probs := conformance()
 		fmt.Printf("conformance: %d traces replayed against the real ATP client/server, %d disagreements\n", n, len(probs))
